@@ -46,7 +46,8 @@ CHECKS = {
              "ordered selection of {response (ok / refusal statuses in rotation / not-joined), matching event, non-matching event, "
              "timeout} and every order of {response, two results, completion} is executed on the real EZSP.formNetwork, leaveNetwork, "
              "startScan and ControllerApplication._ensure_network_running (versions 8, 4, 14 quick / 4..14 thorough) in virtual time with "
-             "the harness as NCP, each ended by timeout, cancellation or a further event, plus repeated operations; TLC validates outcome, "
+             "the harness as NCP, each ended by timeout, cancellation or a further event (scans: cancellation / command timeout after every "
+             "prefix of every event order, then late frames and a further scan), plus repeated operations; TLC validates outcome, "
              "exact timeout instant, scan results and that listener / callback bookkeeping is back to its prior size after every operation.",
         design_ref="3/C17",
         note="Trusted: compat shim (bring-up), fake gateway + NcpEzsp encoder, virtual time. Residue is read from EZSP._stack_status_listeners "
@@ -95,7 +96,12 @@ CHECKS = {
              "connection_lost(exc), EOF and deliberate close are injected after every wire event of the fault-free run, as their own "
              "event-loop callback and queued right behind the event, with and without a registered callback; TLC judges each run "
              "(request delivered, no write once known, termination within command + link timeouts, probe command refused without a write, "
-             "nothing escaping a protocol callback, nothing left pending).",
+             "nothing escaping a protocol callback, nothing left pending). In addition the concrete composition spec/Stack.tla (EzspCmd over "
+             "Gateway over AshHost, glued as the code glues them) is model-checked in StackMC against a faulty line and a conforming NCP "
+             "that may send an ERROR frame or lose the connection at any moment: EZSP stopped and silent after the request, request only "
+             "on failure, and (liveness, fair timers and line) every issued call returns or raises; runs of the real full stack with every "
+             "failure kind after each of the first wire steps (registered or not) and random fault / failure schedules on versions 4..14 "
+             "must be behaviours of the composed model (Trace_Stack, SilentAfterRequest / StoppedAfterRequest on every state).",
         design_ref="3/C10",
         note="Trusted: full-stack rig (fake serial transport that stops delivering reads once closed, simulated ASH + EZSP NCP), virtual "
              "time. A silent NCP is noticed only when something is sent (the harness issues the keep-alive a watchdog would); an "
@@ -174,7 +180,14 @@ CHECKS = {
              "versions 4..14 run on a fake gateway in virtual time: a blocker plus every triple of callers from the three priority "
              "classes x every sequence of 2 (quick) / 3 (thorough) of 13 environment reactions, and random runs of 600 commands "
              "wrapping the sequence number twice; TLC validates each run against Trace_EzspCmd (frames handed to the link with "
-             "sequence/ID decoded by the harness's own header decoder, outcome and time of each call, callback deliveries).",
+             "sequence/ID decoded by the harness's own header decoder, outcome and time of each call, callback deliveries). "
+             "End to end: spec/Stack.tla composes EzspCmd, Gateway and AshHost (unchanged) with the glue the code has between them; "
+             "StackMC runs it against a faulty line and a conforming ASH + EZSP NCP (own response only, NCP sees requests in hand-over "
+             "order at most once, callbacks at most once, the code's frame handling refines EzspCmd's alternatives; 0.4-1.1 M states "
+             "per configuration, cancellation included), and runs of the real full stack (EZSP / uart.connect / Gateway / AshProtocol "
+             "on a fake serial line, versions 4..14, per-frame faults in both directions, back-to-back reads, timers, callbacks, "
+             "cancellations, silent NCP, re-negotiation) must be behaviours of the composed model (Trace_Stack; a binding self-test "
+             "corrupts recorded fields and requires rejection).",
         design_ref="3/C06",
         note="Trusted: fake gateway, virtual-time loop, zigpy's priority semaphore is part of the implementation under test. Per handler "
              "lifetime (a version switch or reset replaces the handler; that is C09). Latitude: a reply hitting a stale registration may be "
@@ -268,8 +281,10 @@ CHECKS = {
              "RSTACK per attempt, paired reactions in one read, reactions landing in the loop iteration of the ACK timer) for 3-4 "
              "sends from transmit numbers 0, 6, 7; TLC checks attempt bound, same frame number/payload/retransmit flag on repeats, "
              "silence while failed, one outstanding frame, consecutive numbering, exactly one upward notice with the reason, "
-             "waiters failing, and that silence alone ends every send. Every reaction script up to length 4 (quick) / 6 (thorough) "
-             "x 3 workloads, all full-budget scripts, all codes and random long scripts run on the real AshProtocol in virtual "
+             "waiters failing, and that silence alone ends every send. Every script over 11 per-attempt reactions (incl. answers in the "
+             "timer's own loop iteration and answers arriving 1 ms before the timer, which drive the adaptive timeout up) up to length "
+             "4 (quick) / 5 + length 6 over 6 core reactions (thorough: 0.7 M scripts, streamed in batches) x 3 workloads, all "
+             "full-budget scripts, adaptive-timeout ramps, all codes and random long scripts run on the real AshProtocol in virtual "
              "time; TLC validates each trace against Trace_AshHost incl. the 400..3200 ms bound on every timeout-driven step.",
         design_ref="3/C05",
         note="Trusted: virtual-time loop (bv.vloop) with bellows.ash's `time` rebound to it; ashref.py. Retry budget read from the "
@@ -293,7 +308,8 @@ CHECKS = {
              "N<=3 quick / N<=4 thorough, 3 groups, answers ok/reject/timeout) checking Mirror, FreeMirror, "
              "FullFails, Idempotent, FailedCallKeepsFree; every (state, operation, answer) transition of the "
              "dumped state graph is executed on the real Multicast object and every execution (plus seeded "
-             "random histories beyond the bounds) is validated by TLC against Trace_Multicast with the observed "
+             "random histories beyond the bounds, and the same initial tables programmed with other non-zero "
+             "endpoints: 2, 255, mixed) is validated by TLC against Trace_Multicast with the observed "
              "status, table write, NCP table and behaviourally probed host view bound at each step.",
         design_ref="3/C15",
         note="Trusted: command-level simulated NCP (does not apply rejected/timed-out writes), deep-copy "
